@@ -533,7 +533,7 @@ func ruleSubjectGate() check.Rule {
 					n++
 					c.Inc("subject_gated_effects", 1)
 					key := fmt.Sprintf("ro.%s.SubscribeWithContext/register#%d", tname, n)
-					if afterTerminatingSwitch(m, info, fd.Body, node, 2) || guardedBy(fd.Body, node, open) {
+					if afterTerminatingSwitch(m, info, fd.Body, node, 2) || inOpenClause(info, fd.Body, node, 2) || guardedBy(fd.Body, node, open) {
 						c.OK(key, node.Pos(), "%s is reached only with an open status (closed kinds return first)", what)
 					} else {
 						c.Violation(key, node.Pos(), "%s can happen on a terminated subject: the observer would never be notified nor released", what)
